@@ -365,6 +365,13 @@ def generate(repo):
     else:
         src = 'def sliceValToIdx (_len_s : Int) (_val : Option Int) (_default : Int) : Int := 0\ndef sliceValToIdxOk : Bool := false\n'
     w(src)
+    for py, ln in (('apply_formatting', 'applyGuard'), ('remove_formatting', 'removeGuard'), ('find_settings', 'findGuard'),
+                   ('ansi_settings_at', 'settingsAtGuard'), ('_shift_settings_idx', 'shiftGuard')):
+        if py in fns:
+            w(pyint.translate_prefix(fns[py], ln, 'what `AnsiString.%s` does before its first statement outside the translated subset: '
+                                                  '0 = goes on, 1 = has returned, 2 = has raised' % py))
+        else:
+            w('def %s : Int := 0\n' % ln)
     w('end Gen')
     return '\n'.join(L) + '\n'
 
